@@ -778,13 +778,52 @@ func C05(tier string) int {
 		}
 		res.Case(fmt.Sprintf("one-actor-two-schemes|%v|%v", order, owners))
 	}
+	// ---- part 5: outbox endpoints whose IRI is more than a path: routed by a query parameter, carrying a
+	// percent-escape, an explicit port or an upper-case host. The library must work on THE outbox posted to ----
+	for _, ep := range []struct{ name, url string }{{"query-routed", "https://l.example/box?u=alice&k=outbox"}, {"escaped-slash", "https://l.example/u/al%2Fice/outbox"},
+		{"escaped-tilde", "https://l.example/%7Ealice/outbox"}, {"query-after-path", outbox(Alice) + "?format=as2"}, {"explicit-port", "https://l.example:8443/u/alice/outbox"}} {
+		for _, body := range []M{Doc("Note", "", "content", "c", "to", Carol), Doc("Create", "", "actor", Alice, "to", Carol, "object", Emb("Note", "", "content", "c")),
+			Doc("Like", "", "actor", Alice, "object", RNote, "to", Carol)} {
+			for _, kind := range []ap.ActorKind{ap.Both, ap.SocialOnly} {
+				ep := ep
+				sc := &Scenario{Name: fmt.Sprintf("c05/%v outbox-endpoint=%s %s", body["type"], ep.name, kind), Kind: kind, Entry: "PostOutbox", URL: ep.url, Body: body,
+					Tweak: func(a *ap.App) {
+						a.Endpoints = map[string][2]string{ep.url: {Alice, "outbox"}}
+						a.Outboxes[ep.url] = []string{"https://l.example/a/older"}
+					}}
+				out := sc.Exec(mc.NewExec(nil), false)
+				nMix++
+				res.Case(sc.Name)
+				rep := M{"check": "C05", "part": "endpoint", "scenario": sc.Name, "endpoint": ep.url, "body": body}
+				if out.Panic != nil {
+					continue
+				}
+				if out.Err != nil || len(out.W.Statuses) != 1 || out.W.Statuses[0] != 201 {
+					res.Violate("endpoint|post-not-accepted|"+ep.name, fmt.Sprintf("%s: err=%v statuses=%v", sc.Name, out.Err, out.W.Statuses), rep)
+					continue
+				}
+				a := out.App
+				ob := a.Outboxes[ep.url]
+				loc := out.W.H.Get("Location")
+				if len(ob) != 2 || ob[0] != loc || ob[1] != "https://l.example/a/older" {
+					res.Violate("endpoint|outbox-posted-to-not-updated|"+ep.name, fmt.Sprintf("%s: the outbox %s lists %v, Location %s; other outboxes: %v", sc.Name, ep.url, shortIDs(ob), loc, a.Outboxes), rep)
+					continue
+				}
+				var st map[string]interface{}
+				json.Unmarshal(a.Store[ob[0]], &st)
+				if !idSet(st["actor"])[Alice] || len(idSet(st["actor"])) != 1 {
+					res.Violate("endpoint|activity-actor-is-not-the-outbox-owner|"+ep.name, fmt.Sprintf("%s: stored activity has actor %v, the outbox belongs to %s", sc.Name, keysRaw(idSet(st["actor"])), Alice), rep)
+				}
+			}
+		}
+	}
 	res.Evaluations += nMix
 	res.Extra["inputs"] = len(ins)
 	res.Extra["history_depth_completed"] = depth
 	res.Extra["history_alphabet"] = len(posts)
 	res.Extra["fault_bound_completed"] = bound
 	res.Extra["fault_scenarios"] = len(faultIns)
-	res.Rule = fmt.Sprintf("(1) inputs: Create with one object and every assignment of {absent,{x},{y,z}} to the five addressing properties of activity and object (3^10, quick: a quarter plus all bto/bcc cross pairs) with 4 attribution variants, bare Note/Article over 3^5 assignments x published x 4 entry/actor combinations, bare Notes whose published is a boundary instant (zero time, epoch, end of year 9999, offsets +14:00 / -12:00, a leap day), Creates with 2 (thorough 3) objects over to/bto/bcc, 9 other activity types: %d posts, judged with set semantics on the stored activity and stored objects (a sixth of them, and every re-spelled one, on an Actor that has just refused a Create carrying recipients of its own); (2) histories: explicit-state search, every sequence of up to %d posts over a %d-post alphabet (two outboxes, Send, a rejected post), each transition is a real request on a cloned application state, invariant in every state: each outbox lists exactly the returned ids, newest first, once, all stored; (3) fault sequences: %d posts (each with and without application callbacks wrapped around the default effect) x every choice of <= %d failing seam calls: nothing is handed to the transport after a failed persistence step and success is not reported; (4) 4 posts x 2 actor kinds with the endpoint scheme and the scheme of the minted ids chosen independently: the Location is the stored id at the front of the outbox; states = distinct application states of (2), transitions = requests applied", len(ins), depth, len(posts), len(faultIns), bound)
+	res.Rule = fmt.Sprintf("(1) inputs: Create with one object and every assignment of {absent,{x},{y,z}} to the five addressing properties of activity and object (3^10, quick: a quarter plus all bto/bcc cross pairs) with 4 attribution variants, bare Note/Article over 3^5 assignments x published x 4 entry/actor combinations, bare Notes whose published is a boundary instant (zero time, epoch, end of year 9999, offsets +14:00 / -12:00, a leap day), Creates with 2 (thorough 3) objects over to/bto/bcc, 9 other activity types: %d posts, judged with set semantics on the stored activity and stored objects (a sixth of them, and every re-spelled one, on an Actor that has just refused a Create carrying recipients of its own); (2) histories: explicit-state search, every sequence of up to %d posts over a %d-post alphabet (two outboxes, Send, a rejected post), each transition is a real request on a cloned application state, invariant in every state: each outbox lists exactly the returned ids, newest first, once, all stored; (3) fault sequences: %d posts (each with and without application callbacks wrapped around the default effect) x every choice of <= %d failing seam calls: nothing is handed to the transport after a failed persistence step and success is not reported; (4) 4 posts x 2 actor kinds with the endpoint scheme and the scheme of the minted ids chosen independently: the Location is the stored id at the front of the outbox; (5) 3 posts x 2 actor kinds to outbox endpoints whose IRI carries a routing query, a percent-escape, a query after the path or an explicit port: accepted, the id is at the front of THAT outbox, the activity's actor is its owner; states = distinct application states of (2), transitions = requests applied", len(ins), depth, len(posts), len(faultIns), bound)
 	res.Assumptions = []string{"order and duplicates inside addressing lists are not asserted (set semantics)", "objects are not required to gain each other's recipients", "application state is cloned between history steps (the model is ours, so it can be)"}
 	return res.Finish()
 }
